@@ -24,7 +24,8 @@ def run(ctx):
         def remake(ss):
             return (lambda: fn(list(ss), max_edits=k, **kw)), (model or 'api_brute_self_lev', [k, list(ss)])
         th, rq = remake(seqs)
-        return Case('%s k=%d n=%d %s' % (engine, k, len(seqs), kw or ''), th, rq, seqs=list(seqs), site='nn.' + engine,
+        tag = '{%s}' % ','.join('%s=%s' % kv for kv in sorted(kw.items())) if kw else ''
+        return Case('%s k=%d n=%d %s' % (engine, k, len(seqs), kw or ''), th, rq, seqs=list(seqs), site='nn.' + engine + tag,
                     remake=remake, nontrivial=nontriv_for(list(seqs)))
 
     L = 3 if ctx.quick else 4
@@ -77,7 +78,25 @@ def run(ctx):
                 seqs = seqs[:25]
         ctx.count(eng)
         ctx.count('k=%d' % k)
+        if eng == 'kdtree' and t % 4 == 0:
+            # the speed options of kdtree (coarser histogram, two workers) never change the answer
+            kw = dict(compression=rng.choice([2, 5, 20]), n_cpu=rng.choice([1, 2]))
+            ctx.count('kdtree_speed_options')
+            cases.append(mk(eng, seqs, k, **kw))
+            continue
         cases.append(mk(eng, seqs, k))
+    # (d) long sequences (full-length chains, 100-260 residues): a few neighbours by substitution / insertion, lengths on both sides of
+    # 127/128 and 255/256; kdtree and the default search
+    for t in range(3 if ctx.quick else 30):
+        Ln = rng.choice([127, 255, rng.randint(100, 140)])
+        s1 = ''.join(rng.choice(gens.AA) for _ in range(Ln))
+        j = rng.randrange(Ln)
+        seqs = [s1, s1[:j] + rng.choice(gens.AA) + s1[j:], s1[:j] + rng.choice(gens.AA) + s1[j + 1:], s1[1:], s1,
+                ''.join(rng.choice(gens.AA) for _ in range(Ln))]
+        rng.shuffle(seqs)
+        ctx.count('long_sequences')
+        for eng, kw in (('kdtree', {}), ('kdtree', dict(compression=20)), ('nearest_neighbor', {})):
+            cases.append(mk(eng, seqs, rng.choice([1, 2]), **kw))
     run_cases(ctx, cases, vm_every=13)
 
     # three-way agreement on the implementation side
@@ -106,6 +125,8 @@ def replay(ctx, obj):
     import pyrepseq.nn as nn
     r = obj['replay']
     seqs, k = r['seqs'], r['request'][1][0]
-    eng = (obj.get('site') or 'nn.kdtree').split('.')[1]
+    site = obj.get('site') or 'nn.kdtree'
+    eng = site.split('.')[1].split('{')[0]
+    kw = {a: int(b) for a, b in (x.split('=') for x in site.split('{')[1].rstrip('}').split(','))} if '{' in site else {}
     fn = getattr(nn, eng, nn.kdtree)
-    run_cases(ctx, [Case('replay', lambda: fn(list(seqs), max_edits=k), ('api_brute_self_lev', [k, seqs]), seqs=seqs, site=obj.get('site'))])
+    run_cases(ctx, [Case('replay', lambda: fn(list(seqs), max_edits=k, **kw), ('api_brute_self_lev', [k, seqs]), seqs=seqs, site=obj.get('site'))])
